@@ -325,7 +325,8 @@ impl<'t, D: Doc> Traversal<'t, D> for Post<'t, D> {
       // because we bump match_depth in `step_up` during traversal.
       debug_assert!(depth >= self.match_depth);
       self.match_depth = depth;
-      return;
+      // no return here: if the match was a last child, the cursor already sits on its
+      // parent, and the ancestors of a match must be skipped below.
     }
     // found new nodes to explore in trace_down, skip calibration.
     if self.current_depth >= self.match_depth {
